@@ -126,7 +126,9 @@ fn run_schedule(sc: &Value) {
     }
     let mut pending: Vec<(usize, String)> = Vec::new();
     let long = Duration::from_secs(10);
-    let short = Duration::from_millis(20);
+    // how long a request the specification says must block is watched before it counts as blocked: 20 ms for the bulk of
+    // the schedules, seconds or a minute for a few (a wait that gives up after a while is not mutual exclusion)
+    let short = Duration::from_millis(sc.get("block_ms").and_then(|x| x.as_u64()).unwrap_or(20));
     for (k, st) in steps.iter().enumerate() {
         let act = s(st, "act");
         let t = tnum(&s(st, "t"));
@@ -293,7 +295,8 @@ pub fn run(script: &str, out: &str) {
         if s(&sc, "mode") == "free" {
             child::run_logged(120, || run_free(&sc));
         } else {
-            child::run_logged(60, || run_schedule(&sc));
+            let secs = 60 + (sc.get("block_ms").and_then(|x| x.as_u64()).unwrap_or(20) / 1000) as u32 * 4;
+            child::run_logged(secs, || run_schedule(&sc));
         }
     }
 }
